@@ -9,6 +9,7 @@ forms (propagate / iterate, output steps, split requests, backward targets) are
 compared with each other within the interpolation resolution.
 """
 
+import itertools
 import math
 
 import numpy as np
@@ -32,7 +33,8 @@ RULE = (
     "with form in {propagate, iter sample, split propagate, backward propagate}, distinct by that tuple"
 )
 BOUNDS = {
-    "quick": "adaptive methods x steps {60, 120} s on the Molniya-like orbit started at apogee, 0.95 period across the perigee: re-sampled streams "
+    "quick": "one re-used KeplerNum object: every order of the 4 methods + all ordered pairs of 9 settings (method, step, tol, bodies, frame), each step vs a "
+    "fresh propagator (bit-identical) and the textbook scheme (thorough: + all triples); adaptive methods x steps {60, 120} s on the Molniya-like orbit started at apogee, 0.95 period across the perigee: re-sampled streams "
     "(77 s, 2.5 h, dates=DateRange) and propagate() to 4 off-grid dates vs the native nodes and the exact flow; 4 orbits x 4 methods x steps {5,15,30,60,120} s; horizon min(3 periods, 1000 steps) (Euler: P/20 for the order test); "
     "request forms: targets P/20, P/4, -P/4 (+P where <= 600 steps), output steps {own, equal-but-not-identical, 2.5 h, 7 s}",
     "thorough": "cross-perigee cases with steps {15, 30, 60, 120} s and tolerances {1e-3, 1e-4}; same alphabet, horizon 3 periods for every step (up to 51 700 steps), adaptive tolerances {1e-3, 1e-1} m; "
@@ -223,6 +225,14 @@ def units(tier, seed):
         for h in ((60, 120) if tier == "quick" else (15, 30, 60, 120)):
             for tol in ((None,) if tier == "quick" else (None, 1e-4)):
                 u.append((cfg, dict(part="xper", orbit="apo", method=method, h=h, tol=tol)))
+    # one RE-USED propagator object whose settings are changed between propagations
+    seqs = [list(x) for x in itertools.permutations(range(4))]  # every order of the four methods (settings 0..3)
+    seqs += [list(x) for x in itertools.permutations(range(len(SETTINGS)), 2)]
+    if tier == "thorough":
+        seqs += [list(x) for x in itertools.product(range(len(SETTINGS)), repeat=3) if x[0] != x[1] and x[1] != x[2]]
+    per = max(1, len(seqs) // (4 if tier == "quick" else 16))
+    for i in range(0, len(seqs), per):
+        u.append((cfg, dict(part="reuse", method="rk4", h=60, orbit="e03", seqs=seqs[i : i + per])))
     # heavy units first (longest-processing-time scheduling)
     u.sort(key=lambda x: -_cost(x[1]))
     return u
@@ -233,6 +243,8 @@ def _cost(p):
     if p["part"] == "march":
         return p["n"] * per * (1.6 if p["method"] in ORDER else 1.0)
     P = _period(p["orbit"])
+    if p["part"] == "reuse":
+        return 200 * len(p["seqs"])
     if p["part"] == "xper":
         return 6 * P / min(p["h"], 60) * per
     mult = 6 if p["tier"] == "quick" else 16
@@ -255,6 +267,11 @@ def check_case(case, t):
             check_adaptive_march(case, t)
     elif case["part"] == "xper":
         check_cross_perigee(case, t)
+    elif case["part"] == "reuse":
+        for seq in case["seqs"]:
+            check_reuse(dict(part="reuse", orbit=case["orbit"], seq=seq), t)
+    elif case["part"] == "reuse1":
+        check_reuse(case, t)
     else:
         check_requests(case, t)
 
@@ -828,3 +845,89 @@ def check_cross_perigee(case, t):
             t.fail(f"KeplerNum/{method}/propagate/date", "propagate(t) returns a state dated t", c, us, us_of(p.date))
             continue
         judge(us, A(p), "propagate", c)
+
+
+# ---------------------------------------------------------------------------
+# history part: one propagator object re-used with changed settings
+
+SETTINGS = [  # (method, step [s], tol, bodies, frame)
+    ("euler", 60, None, "earth", "EME2000"),
+    ("rk4", 60, None, "earth", "EME2000"),
+    ("rkf54", 60, None, "earth", "EME2000"),
+    ("dopri54", 60, None, "earth", "EME2000"),
+    ("rk4", 120, None, "earth", "EME2000"),
+    ("dopri54", 120, 1e-1, "earth", "EME2000"),
+    ("rkf54", 60, 1e-5, "earth", "EME2000"),
+    ("rk4", 60, None, "none", "EME2000"),
+    ("rk4", 60, None, "earth", "TEME"),
+]
+REUSE_T = 1200  # s, on every grid
+
+
+def _configure(prop, setting):
+    from datetime import timedelta
+
+    method, h, tol, bodies, frame = setting
+    prop.method = method
+    prop.step = timedelta(seconds=h)
+    prop.tol = 1e-3 if tol is None else tol
+    prop.bodies = [_G["earth"]] if bodies == "earth" else []
+    prop.frame = frame
+
+
+def check_reuse(case, t):
+    """case["seq"] = indices into SETTINGS applied one after the other to ONE KeplerNum object bound to ONE orbit; after each change
+    the orbit is propagated (alternately through propagate() and iter()) and must give, bit for bit, what a brand-new propagator
+    built with these settings gives - and, for the fixed-step methods, the node of the textbook scheme."""
+    from datetime import timedelta
+    from beyond.orbits import Orbit
+    from beyond.propagators.keplernum import KeplerNum
+    from mc.ref import rk
+
+    name, seq = case["orbit"], case["seq"]
+    mu = _G["mu"]
+    g = geom(name)
+    y0 = y0_of(name)
+    key = ("H", name, tuple(seq))
+    t.ev(key)
+    t.state(key)
+    shared = KeplerNum(timedelta(seconds=SETTINGS[seq[0]][1]), _G["earth"], method=SETTINGS[seq[0]][0])
+    orb = Orbit(y0, _G["epoch"], "cartesian", "EME2000", shared)
+    c = dict(case, part="reuse1")
+    for k, idx in enumerate(seq):
+        setting = SETTINGS[idx]
+        method, h, tol, bodies, frame = setting
+        _configure(shared, setting)
+        kw = {} if tol is None else {"tol": tol}
+        fresh_prop = KeplerNum(timedelta(seconds=h), [_G["earth"]] if bodies == "earth" else [], method=method, frame=frame, **kw)
+        fresh = Orbit(y0, _G["epoch"], "cartesian", "EME2000", fresh_prop)
+        via = "propagate" if k % 2 == 0 else "iter"
+        try:
+            if via == "propagate":
+                a, b = orb.propagate(at(REUSE_T * 10**6)), fresh.propagate(at(REUSE_T * 10**6))
+            else:
+                a, b = list(orb.iter(stop=at(REUSE_T * 10**6)))[-1], list(fresh.iter(stop=at(REUSE_T * 10**6)))[-1]
+            t.trans(2)
+        except LIBERR as e:
+            t.fail(f"KeplerNum/reused-propagator/raises-{type(e).__name__}", "a propagator object can be re-used after its settings were changed", c, "state", repr(e)[:300],
+                   f"sequence {[SETTINGS[i][:3] for i in seq]} step {k}")
+            return
+        ya, yb = A(a), A(b)
+        same = us_of(a.date) == us_of(b.date) and a.frame.name == b.frame.name and np.array_equal(ya, yb)
+        t.outcome(("reuse", method, via))
+        if not same:
+            d = float(np.linalg.norm(ya[:3] - yb[:3]))
+            t.fail("KeplerNum/reused-propagator/differs-from-fresh-propagator",
+                   "the result is a function of the current settings (method, step, tol, bodies, frame), not of what the object did before", c,
+                   [float(x) for x in yb], [float(x) for x in ya],
+                   f"{name}: after {[SETTINGS[i][:3] for i in seq[:k]]} the object set to {setting} gives via {via} a state {d:.4e} m from a fresh propagator ({a.frame.name}, {us_of(a.date)*1e-6} s)")
+            return
+        t.margin("H: re-used propagator vs fresh propagator (bit-identical expected) / 1e-9 m", float(np.max(np.abs(ya - yb))), 1e-9)
+        if method in ORDER and bodies == "earth" and frame == "EME2000":
+            n = REUSE_T // h
+            yr = rk.march(rk.TABLEAUX[method], rk.two_body_rhs(mu), 0.0, y0, float(h), n)[-1][1]
+            d = float(np.linalg.norm(ya[:3] - yr[:3]))
+            if not t.margin("H: re-used propagator vs textbook scheme / round-off bound", d, roundoff_tol(g, n, REUSE_T)):
+                t.fail(f"KeplerNum/{method}/reused-propagator-vs-textbook-scheme", "fixed-step march equals the textbook scheme on the same grid", c,
+                       [float(x) for x in yr], [float(x) for x in ya], f"{name}: sequence {[SETTINGS[i][:3] for i in seq[:k+1]]}: {d:.3e} m")
+                return
